@@ -160,6 +160,65 @@ def copy_tt(Y):
 
 
 # ----------------------------------------------------------------------------------------------
+# adversarial families
+# ----------------------------------------------------------------------------------------------
+
+def sum_rank1(terms, d):
+    """TT cores of sum_t w_t * v_t1 x ... x v_td (direct sum of rank-1 terms; weight on the first core)"""
+    Rk = len(terms)
+    Y = []
+    for j in range(d):
+        n = len(terms[0][1][j])
+        G = np.zeros((1 if j == 0 else Rk, n, 1 if j == d - 1 else Rk))
+        for t, (w, vs) in enumerate(terms):
+            G[0 if j == 0 else t, :, 0 if j == d - 1 else t] = np.asarray(vs[j], dtype=float) * (w if j == 0 else 1.0)
+        Y.append(G)
+    return Y
+
+
+def misleading_tt(rng, ns, bs, bg, blk, peak, jitter=0.004):
+    """'block plus isolated peak': background bg, the block prod_j [0, bs_j) at level blk, one entry at the far corner at level
+    peak (TT-rank 3).  The fibres through the block have a larger norm than the fibre through the peak, so a pruned sweep (from
+    either side) follows the block and misses the entry of maximum modulus.  A small multiplicative jitter removes exact ties."""
+    d = len(ns)
+    jit = lambda n: np.array([1.0 + jitter * rng.uniform(-1, 1) for _ in range(n)])
+    ones = [jit(n) for n in ns]
+    ind = [jit(n) * np.array([1.0 if i < b else 0.0 for i in range(n)]) for n, b in zip(ns, bs)]
+    e = [np.eye(n)[n - 1] for n in ns]
+    # entries: bg*ones + (blk-bg)*ind + (peak-bg)*e  (up to the jitter)
+    return sum_rank1([(bg, ones), (blk - bg, ind), (peak - bg, e)], d)
+
+
+# (shape, block sizes): found by search to mislead both sweep directions for k up to about the block size
+MISLEADING_SMALL = [([4, 1, 4], [3, 1, 3]), ([4, 2, 4], [3, 2, 3]), ([3, 2, 2, 3], [2, 2, 2, 2])]
+MISLEADING_MORE = [([4, 3, 4], [3, 2, 3]), ([5, 2, 5], [4, 1, 4]), ([4, 4, 4], [3, 3, 3]), ([4, 2, 2, 4], [3, 1, 1, 3]), ([3, 3, 3, 3], [2, 2, 2, 2])]
+# (background, block, peak): positive, negated, sign-mixed
+MISLEADING_LEVELS = [(1.5, 2.0, 2.6), (-1.5, -2.0, -2.6), (1.5, 2.0, 3.0), (1.5, 2.0, -2.6), (-1.5, 2.0, 2.75), (1.5, -2.0, 2.6)]
+
+
+def zero_onesigned_tensors():
+    """one-signed tensors containing exact zeros: non-negative / non-positive, rank 1 and rank 2 with a zero slice"""
+    one = lambda v: np.array(v, dtype=float).reshape(1, -1, 1)
+    out = []
+    base = [[one([0, 1, 2]), one([3, 0, 1])], [one([2, 0]), one([1, 3, 0]), one([0, 2])], [one([1, 0, 4]), one([2, 5]), one([0, 3, 1])],
+            [one([0, 0, 1]), one([1, 2])], [one([1, 2, 0, 3]), one([0, 1, 1, 2])]]
+    for Y in base:
+        out.append(('zeros-nonneg-r1', Y))
+        for j in range(len(Y)):          # a single negated core: non-positive tensor; the sign sits in a different core
+            out.append(('zeros-nonpos-r1', [(-G if t == j else G.copy()) for t, G in enumerate(Y)]))
+        if len(Y) >= 2:
+            out.append(('zeros-nonneg-r1-2neg', [(-G if t < 2 else G.copy()) for t, G in enumerate(Y)]))
+    r2 = [sum_rank1([(1.0, [[0, 1, 2], [1, 0, 3]]), (2.0, [[0, 2, 1], [2, 0, 1]])], 2),
+          sum_rank1([(1.0, [[1, 0, 2], [1, 3], [0, 1, 1]]), (0.5, [[3, 0, 1], [2, 1], [0, 2, 4]])], 3),
+          sum_rank1([(1.0, [[1, 2], [0, 3, 1], [1, 1]]), (3.0, [[2, 1], [0, 1, 2], [0, 1]])], 3)]
+    for Y in r2:
+        out.append(('zeros-nonneg-r2', Y))
+        out.append(('zeros-nonpos-r2', [-Y[0]] + [G.copy() for G in Y[1:]]))
+        out.append(('zeros-nonpos-r2-last', [G.copy() for G in Y[:-1]] + [-Y[-1]]))
+    return out
+
+
+# ----------------------------------------------------------------------------------------------
 # recorders (installed on module attributes looked up at call time by optima.py)
 # ----------------------------------------------------------------------------------------------
 
@@ -453,8 +512,14 @@ def _pipeline_cases(tn, rng, thorough):
     for cores in DIRECTION_FAMILY:
         Y = [np.array(G, dtype=float) for G in cores]
         add([G.shape[1] for G in Y], [1] + [G.shape[2] for G in Y], Y, [1])
+    # adversarial family: block plus isolated peak (positive, negated, and in the thorough tier sign-mixed), every k up to N/4:
+    # the pruned first search misses the entry of maximum modulus, the second search finds it
+    for ns, bs in MISLEADING_SMALL + (MISLEADING_MORE[:2] if thorough else []):
+        for lv in (MISLEADING_LEVELS if thorough else MISLEADING_LEVELS[:2]):
+            Y = misleading_tt(rng, ns, bs, *lv)
+            add(ns, [1] + [3] * (len(ns) - 1) + [1], Y, list(range(1, max(2, nelem(Y) // 4) + 1)))
     n_t = 60 if thorough else 14
-    while len(items) < (400 if thorough else 70) and n_t > 0:
+    while len(items) < (400 if thorough else 110) and n_t > 0:
         n_t -= 1
         ns, rs = rand_shape(rng, dmax=4, nmax=3, rmax=2, nelem=24)
         Y = rand_tt(rng, ns, rs, 'float')
@@ -833,6 +898,33 @@ def _oracle_func(tn, A, k, k_loc=None):
     return None
 
 
+def _oracle_order(tn, Y, k):
+    """the clauses that hold for EVERY k: indices in bounds, values are the entries there, reported minimum <= reported maximum,
+    optima_tt_max value is an entry and at least as large in modulus as either sweep direction"""
+    ns = [G.shape[1] for G in Y]
+    Fd = _quiet(tn.full, Y)
+    tol = 1e-9 * max(float(np.max(np.abs(Fd))), 1e-300)
+    inp = dict(Y=[G.tolist() for G in Y], k=k, order_only=True)
+    fail = lambda what, got=None, expected=None: dict(what=what, input=inp, got=got, expected=expected)
+    try:
+        i, y = _quiet(tn.optima_tt_max, copy_tt(Y), k)
+        if not _inb(i, ns):
+            return fail('optima_tt_max returns a multi-index outside the tensor bounds', np.asarray(i).tolist(), ns)
+        if abs(float(y) - Fd[tuple(int(a) for a in i)]) > tol:
+            return fail('optima_tt_max value is not the tensor entry at the returned index', float(y), float(Fd[tuple(int(a) for a in i)]))
+        i_min, y_min, i_max, y_max = _quiet(tn.optima_tt, copy_tt(Y), k)
+        if not (_inb(i_min, ns) and _inb(i_max, ns)):
+            return fail('optima_tt returns a multi-index outside the tensor bounds', [np.asarray(i_min).tolist(), np.asarray(i_max).tolist()], ns)
+        if abs(float(y_min) - Fd[tuple(int(a) for a in i_min)]) > tol or abs(float(y_max) - Fd[tuple(int(a) for a in i_max)]) > tol:
+            return fail('optima_tt values are not the tensor entries at the returned indices',
+                        [float(y_min), float(y_max)], [float(Fd[tuple(int(a) for a in i_min)]), float(Fd[tuple(int(a) for a in i_max)])])
+        if not (float(y_min) <= float(y_max)):
+            return fail('optima_tt reports y_min > y_max', [float(y_min), float(y_max)])
+    except Exception as e:  # noqa
+        return fail('optimum search raised on a valid tensor: ' + repr(e)[:200])
+    return None
+
+
 def _search_tensors(rng, deep):
     """degenerate families first, then random structured tensors"""
     out = []
@@ -899,6 +991,24 @@ def search(R, ctx, deep, hints):
                 n_eval += 1
                 fam['qtt'] = fam.get('qtt', 0) + 1
                 push(_oracle_qtt(tn, Y, k))
+    # one-signed tensors with exact zeros: every k, all clauses (rank 1: exact for every k; rank 2: exact for k >= N)
+    for name, Y in zero_onesigned_tensors():
+        for k in range(1, nelem(Y) + 2):
+            n_eval += 1
+            fam[name] = fam.get(name, 0) + 1
+            push(_oracle_tt(tn, Y, k))
+    # block plus isolated peak, its negation and sign-mixed variants: every k from 1 to N/4, the clauses that hold for every k;
+    # all clauses at k = N
+    for ns, bs in MISLEADING_SMALL + MISLEADING_MORE:
+        for lv in MISLEADING_LEVELS:
+            Y = misleading_tt(rng, ns, bs, *lv)
+            N = nelem(Y)
+            for k in range(1, max(2, N // 4) + 1):
+                n_eval += 1
+                fam['misleading'] = fam.get('misleading', 0) + 1
+                push(_oracle_order(tn, Y, k))
+            n_eval += 1
+            push(_oracle_tt(tn, Y, N))
     # quantised variant on power-of-two shapes
     for _ in range(24 if deep else 6):
         d, q = rng.choice([(2, 1), (2, 2), (3, 1), (3, 2), (2, 3), (4, 1)])
@@ -950,6 +1060,8 @@ def replay(data):
         f = _oracle_func(tn, [np.array(G, dtype=float) for G in inp['A']], inp['k'], inp.get('k_loc'))
     elif 'Y' in inp and inp.get('qtt'):
         f = _oracle_qtt(tn, [np.array(G, dtype=float) for G in inp['Y']], inp['k'])
+    elif 'Y' in inp and inp.get('order_only'):
+        f = _oracle_order(tn, [np.array(G, dtype=float) for G in inp['Y']], inp['k'])
     elif 'Y' in inp:
         f = _oracle_tt(tn, [np.array(G, dtype=float) for G in inp['Y']], inp['k'])
     else:
